@@ -408,7 +408,7 @@ impl<'c, 'a, 'ast> Visit<'ast> for BodyVisitor<'c, 'a> {
             let _ = is_tail;
             let txt = norm_ws(&self.cx.f.text[s..e]);
             for (k, a) in self.d.anchors.iter().enumerate() {
-                if a.kind == AnchorKind::AtEnd || self.anchor_done[k] {
+                if a.kind == AnchorKind::AtEnd || a.kind == AnchorKind::AtStart || self.anchor_done[k] {
                     continue;
                 }
                 if txt.starts_with(&a.pat) {
@@ -419,7 +419,7 @@ impl<'c, 'a, 'ast> Visit<'ast> for BodyVisitor<'c, 'a> {
                         match a.kind {
                             AnchorKind::Before => self.cx.edit(s, s, format!("{}\n", text), 200000, "R7-splice"), // above any R4 prefix at the same offset
                             AnchorKind::After => self.cx.edit(e, e, format!("\n{}", text), -50, "R7-splice"),
-                            AnchorKind::AtEnd => {}
+                            AnchorKind::AtEnd | AnchorKind::AtStart => {}
                         }
                     }
                 }
@@ -873,6 +873,52 @@ impl<'c, 'a, 'ast> Visit<'ast> for BodyVisitor<'c, 'a> {
                 let base = self.cx.f.slice(ix.expr.span()).to_string();
                 self.cx.edit(s, e2, format!("{}.as_mut_slice()", base), 0, "R27-full-range-mut");
             }
+            Expr::MethodCall(mc)
+                if self.d.unroll_all_any
+                    && (mc.method == "all" || mc.method == "any")
+                    && mc.turbofish.is_none()
+                    && mc.args.len() == 1
+                    && matches!(&mc.args[0], Expr::Closure(c) if c.inputs.len() == 1)
+                    && matches!(&*mc.receiver, Expr::MethodCall(m) if m.method == "iter" && m.args.is_empty() && m.turbofish.is_none()
+                        && matches!(&*m.receiver, Expr::Array(a) if a.elems.len() <= 8)) =>
+            {
+                // R29 (opt-in `//@ unroll-array-all-any`): see directives.rs — the definition of `Iterator::all` / `any` in core on an array literal.
+                let cl = match &mc.args[0] { Expr::Closure(c) => c, _ => unreachable!() };
+                let arr = match &*mc.receiver { Expr::MethodCall(m) => match &*m.receiver { Expr::Array(a) => a, _ => unreachable!() }, _ => unreachable!() };
+                let pat = match &cl.inputs[0] { syn::Pat::Type(pt) => &*pt.pat, other => other };
+                let (x, by_val) = match pat {
+                    syn::Pat::Ident(pi) if pi.by_ref.is_none() && pi.subpat.is_none() => (pi.ident.to_string(), false),
+                    syn::Pat::Reference(r) if r.mutability.is_none() => match &*r.pat {
+                        syn::Pat::Ident(pi) if pi.by_ref.is_none() && pi.subpat.is_none() && pi.mutability.is_none() => (pi.ident.to_string(), true),
+                        _ => die(&format!("unroll-array-all-any in {}: unsupported closure parameter pattern", self.fn_path)),
+                    },
+                    _ => die(&format!("unroll-array-all-any in {}: unsupported closure parameter pattern", self.fn_path)),
+                };
+                // the predicate text P (always-on expression rewrites applied) and the element texts, rendered separately and then replicated
+                let mut sub_render = |this: &mut Self, ex: &'ast Expr| -> String {
+                    let n0 = this.cx.edits.len();
+                    this.visit_expr(ex);
+                    let mut sub: Vec<Edit> = this.cx.edits.drain(n0..).collect();
+                    let (bs, be) = this.cx.f.range(ex.span());
+                    render(this.cx.f, bs, be, &mut sub).0
+                };
+                let ptxt = sub_render(self, &cl.body);
+                let elems: Vec<String> = arr.elems.iter().map(|el| sub_render(self, el)).collect();
+                let op = if mc.method == "all" { " && " } else { " || " };
+                let mut out = String::from("{ ");
+                for (k, t) in elems.iter().enumerate() {
+                    out.push_str(&format!("let vx_e{} = {}; ", k, t));
+                }
+                if elems.is_empty() {
+                    out.push_str(if mc.method == "all" { "true" } else { "false" });
+                } else {
+                    let terms: Vec<String> = (0..elems.len()).map(|k| format!("({{ let {} = {}vx_e{}; {} }})", x, if by_val { "" } else { "&" }, k, ptxt)).collect();
+                    out.push_str(&terms.join(op));
+                }
+                out.push_str(" }");
+                let (s, e2) = self.cx.f.range(mc.span());
+                self.cx.edit(s, e2, out, 0, "R29-unroll-all-any");
+            }
             Expr::MethodCall(mc) if mc.turbofish.is_none() && self.d.method_as.iter().any(|(m, _)| mc.method == m.as_str()) => {
                 // R28 (opt-in `//@ method-as <method> <fn>`): `RECV.<method>(ARGS)` -> `<fn>(RECV, ARGS)`. <fn> is a shim declared in the template whose
                 // external body is `recv.<method>(args)` itself (executed code unchanged) and whose contract is the ASSUMED specification of that std
@@ -1081,6 +1127,13 @@ fn process_fn(cx: &mut Ctx, sig: &syn::Signature, block: &Block, d: &FnDirective
         fn_path: fn_path.to_string(),
     };
     v.visit_block(block);
+    // at-start anchors: directly after the opening brace
+    for (k, a) in d.anchors.iter().enumerate() {
+        if a.kind == AnchorKind::AtStart {
+            v.cx.edit(bs + 1, bs + 1, format!("\n{}\n", a.lines.join("\n")), 5, "R7-splice");
+            v.anchor_done[k] = true;
+        }
+    }
     // at-end anchors
     for (k, a) in d.anchors.iter().enumerate() {
         if a.kind == AnchorKind::AtEnd {
